@@ -29,7 +29,8 @@ def cases(tier, seed):
                       (2018, 1, 1), (2018, 12, 30), (2018, 12, 31), (2024, 12, 29), (2024, 12, 30), (2026, 1, 1), (1000, 1, 1), (9999, 12, 31), (2262, 4, 11), (2262, 4, 12), (2262, 4, 13)]:
         for h in range(24):
             instants.append(ms_of(y, m, d, h, rng.randrange(60), rng.randrange(60), rng.randrange(1000)))
-    offsets = [None] + ['%s%02d%02d' % (sg, h, mi) for sg in '+-' for h in range(0, 15) for mi in (0, 15, 30, 45)][: (40 if tier == 'quick' else 200)]
+    alloff = [o for o in ['%s%02d%02d' % (sg, h, mi) for sg in '+-' for h in range(0, 15) for mi in (0, 15, 30, 45)] if int(o[1:3]) * 60 + int(o[3:5]) <= 14 * 60]
+    offsets = [None] + (alloff if tier != 'quick' else ['+0000', '-0000', '+0015', '-0015', '-0030', '-0045', '+0045', '+0100', '-0100', '+0530', '-0330', '+1400', '-1400', '+0945', '-0930'] + rng.sample(alloff, 25))
     bad_offsets = ['+2500', '0100', '+1', '+01:00', 'Z', '', '+0160', '-00', 'abcde', '+1a00', '++100', '+-100']
     # default picture and its inverse
     for ms in instants:
@@ -43,7 +44,7 @@ def cases(tier, seed):
     sample = [int(x) for x in rng.sample(instants, min(len(instants), 12 if tier == 'quick' else 200))]
     for c, m in itertools.product(COMPONENTS, MODS):
         for ms in (sample if tier != 'quick' else rng.sample(sample, 3)):
-            tz = rng.choice(offsets[:9])
+            tz = rng.choice(offsets[:16])
             add('$fromMillis(%d, %s%s)' % (ms, q('[%s%s]' % (c, m)), (', ' + q(tz)) if tz else ''), None, ('component',))
     # spec-level laws with an independent oracle (Python's proleptic Gregorian calendar)
     ep0 = datetime.datetime(1970, 1, 1)
@@ -61,7 +62,7 @@ def cases(tier, seed):
         add('$fromMillis(%d, "[W01]/[F1]/[d001]") = "%02d/%d/%03d"' % (ms, iso[1], dt.isoweekday() % 7 + 1, dt.timetuple().tm_yday), None, ('law', 'law-total', 'week-day'))
         h12 = dt.hour % 12 or 12
         add('$fromMillis(%d, "[h]:[m01] [P]") = "%d:%02d %s"' % (ms, h12, dt.minute, 'am' if dt.hour < 12 else 'pm'), None, ('law', 'law-total', 'hour12'))
-        tz = rng.choice(offsets[1:9] + offsets[-8:])
+        tz = rng.choice(offsets[1:])
         off = (1 if tz[0] == '+' else -1) * (int(tz[1:3]) * 60 + int(tz[3:5]))
         try:
             local_year = (dt + datetime.timedelta(minutes=off)).year
@@ -80,7 +81,7 @@ def cases(tier, seed):
     for pic in pics:
         for ms in (rng.sample(sample, 4) if tier == 'quick' else sample):
             ms2 = ms - ms % 86400000 if 'H' not in pic and 'h' not in pic else (ms - ms % 1000 if 'f' not in pic else ms)
-            tz = rng.choice(offsets[:9]) if 'Z' in pic else None
+            tz = rng.choice(offsets[:16]) if 'Z' in pic else None
             a = '%d, %s%s' % (ms2, q(pic), (', ' + q(tz)) if tz else '')
             add('$fromMillis(%s)' % a, None, ('picture',))
             add('$toMillis($fromMillis(%s), %s)' % (a, q(pic)), None, ('picture-inverse',))
